@@ -257,6 +257,11 @@ func runDaemonReqs(r *run) error {
 					r.oracleFail(id, "read-only module "+m.Name+" was modified", detail)
 				}
 			}
+			for _, m := range mods {
+				if m.Name == strings.TrimSpace(req) && !m.Writable && obs == "receiver" {
+					r.oracleFail(id, "an upload into the non-writable module "+m.Name+" was accepted instead of refused", detail)
+				}
+			}
 			if changed != "" && obs != "receiver" {
 				r.oracleFail(id, "a module changed although the request was not accepted as an upload ("+obs+"): "+changed, detail)
 			}
